@@ -206,6 +206,8 @@ type outcome struct {
 	Queued    int // messages the reactor forwarded to the consensus state's queue
 	// the rejection oracle applies to this case
 	RejectExpected bool
+	GossipSent     int // messages the gossip routines sent to the peer
+	GossipRuns     int
 }
 
 func (o *outcome) viol(oracle, f string, a ...interface{}) {
@@ -263,6 +265,8 @@ const (
 )
 
 func (e *consEnv) gossip(c *consNode, p *mockPeer, ps *consensus.PeerState, out *outcome, when string) {
+	sent := p.sentTot
+	defer func() { out.GossipSent += p.sentTot - sent; out.GossipRuns++ }()
 	for _, g := range []struct {
 		which string
 		iters int
@@ -339,9 +343,15 @@ func (e *consEnv) run(cs *caseT) *outcome {
 	case peerKnown:
 		// the peer announced the node's own height/round and has been gossiped to for a while
 		c.ConR.Receive(chState, p, seeds[0].Bytes)
-		e.gossip(c, p, psOf(p), out, "warm-up")
-		if len(out.Viols) > 0 || p.wasStopped() {
-			out.viol("harness", "warm-up of a known peer failed")
+		e.gossip(c, p, psOf(p), out, "while gossiping to a peer that only sent a valid NewRoundStep")
+		if len(out.Viols) > 0 {
+			// a gossip routine that panics on an honest peer: the violation stands, the case proper is moot
+			out.Stage = "warm-up-gossip-panic"
+			e.drop(cs.State)
+			return out
+		}
+		if p.wasStopped() {
+			out.viol("harness", "warm-up of a known peer failed: the peer was stopped")
 			e.drop(cs.State)
 			return out
 		}
